@@ -89,8 +89,17 @@ def tmpName (k : Nat) : Str := b "TMP" ++ natToDec k
 def genEndStr : GenEnd → String
   | .done => "done" | .assertion => "assertion" | .timeout => "timeout"
 
+/-- `n` CONNECTs to the same host one after the other, each starting from the files the previous one left -/
+def orcLoop (cfg : Cfg) (answers : List (Option Bool)) (env : Env) (host : Str) (maxSend : Nat) :
+    Nat → List String → List Str → List String
+  | 0, _, _ => []
+  | n + 1, cmds, fs =>
+    let r := onConnect cfg answers { env with fs := fs, cmd := cmdAt (cmds.headD "") } host
+    s!"{effsStr r.1} | {postStr r.2} | {relayStr (relayState cfg answers maxSend r.2)}" ::
+      orcLoop cfg answers env host maxSend n cmds.tail r.2.fs
+
 /-- `tls orc <cakey|None> <cacert|None> <signkey|None> <dir|None> <cafile|None> <insecure> <openssl>
-       <answers> <host> <sit> <subject> <fs> <cmds> <cw> <serial> <maxSend>`
+       <answers> <host> <sit> <subject> <fs> <cmds> <cw> <serial> <maxSend> <n>` (n CONNECTs, joined by ` || `; `cmds` = per-CONNECT outcome strings joined by `/`)
     `tls gen <cakey> <cacert> <signkey> <dir> <openssl> <host> <subject> <fs> <cmds> <serial>`
     `tls chain <enabled 0|1> <answers>`
     `tls swrap <hostname|None> <cafile|None> <verifyNone 0|1>`
@@ -102,19 +111,18 @@ def genEndStr : GenEnd → String
 def drv (args : List String) : String :=
   match args with
   | ["orc", cakey, cacert, signkey, dir, cafile, insecure, openssl, answers, host, sit, subject, fs, cmds, cw,
-     serial, maxSend] =>
+     serial, maxSend, n] =>
     match optHex cakey, optHex cacert, optHex signkey, optHex dir, optHex cafile, unhex openssl,
           parseAnswers answers, unhex host, parseSit sit, parseSubject subject, parseList fs, parseCw cw,
-          unhex serial, maxSend.toNat? with
+          unhex serial, maxSend.toNat?, n.toNat? with
     | some cakey, some cacert, some signkey, some dir, some cafile, some openssl, some answers, some host,
-      some sit, some subject, some fs, some cw, some serial, some maxSend =>
+      some sit, some subject, some fs, some cw, some serial, some maxSend, some n =>
       let cfg : Cfg := { caKeyFile := cakey, caCertFile := cacert, caSigningKeyFile := signkey, caCertDir := dir,
                          caFile := cafile, insecure := insecure == "1", openssl := openssl }
       let env : Env := { handshake := refHandshake sit, subject := subject, fs := fs, cmd := cmdAt cmds,
                          tmp := tmpName, serial := serial, clientWrap := cw }
-      let r := onConnect cfg answers env host
-      s!"{effsStr r.1} | {postStr r.2} | {relayStr (relayState cfg answers maxSend r.2)}"
-    | _, _, _, _, _, _, _, _, _, _, _, _, _, _ => "bad-op"
+      " || ".intercalate (orcLoop cfg answers env host maxSend n (cmds.splitOn "/") fs)
+    | _, _, _, _, _, _, _, _, _, _, _, _, _, _, _ => "bad-op"
   | ["gen", cakey, cacert, signkey, dir, openssl, host, subject, fs, cmds, serial] =>
     match optHex cakey, optHex cacert, optHex signkey, optHex dir, unhex openssl, unhex host,
           parseSubject subject, parseList fs, unhex serial with
